@@ -201,6 +201,23 @@ def run(tier, seed, replay):
         sp["what"] = ["scalar-values"]
         specs.append(sp)
         plan.append(("scalar-values", None))
+    # every VALID import path form, actually used: a configuration made only of grammatical pieces is accepted end to end
+    vimps = [c for c in allstr + mutated if c and lang_ok("import", c) and c.strip('"') != "."][:120] + ["\"example.com/lib\"", "\"gv.test/fix/x.y\"", "example.com/a-b_c.d/e"]
+    vcfg = {"meta": {"imports": {"k%d" % i: c for i, c in enumerate(vimps)}},
+            "services": {"s%d" % i: {"constructor": "k%d.New" % i, "type": "*k%d.T" % i, "getter": "GetS%d" % i} for i in range(len(vimps))}}
+    sp = common.mk_spec(len(specs), [vcfg])
+    sp["what"] = ["valid-imports-used"]
+    specs.append(sp)
+    plan.append(("all-valid", None))
+    # the shape of a call: [method], [method, args], [method, args, wither] and nothing else
+    CALLS = [("[]", False), ("[M]", True), ("[M, []]", True), ("[M, [1], true]", True), ("[M, [1], false]", True), ("[M, [], false, extra]", False), ("[M, [], true, 1, 2]", False),
+             ("[M, x]", False), ("[M, [], 1]", False), ("[[M]]", False), ("M", False), ("{method: M}", False), ("[M, ~]", None), ("[M, [], ~]", None), ("[1]", None), ("[~]", None)]
+    for txt, want in CALLS:
+        cfg = _cg.Raw("{services: {s: {constructor: NewA, calls: [%s]}}}" % txt)
+        sp = common.mk_spec(len(specs), ["services:\n  s:\n    constructor: NewA\n    calls:\n      - %s\n" % txt])
+        sp["what"] = ["call-shape"]
+        specs.append(sp)
+        plan.append(("call-shape", (txt, want)))
     # k simultaneous defects, wrong node kinds
     multi = common.random_specs(seed, 150 if tier == "quick" else 2500, "c11multi", inj_rate=1.0, injectors=["grammar", "grammar", "pattern"], nfiles_choices=(1,))
     for sp in multi:
@@ -219,6 +236,17 @@ def run(tier, seed, replay):
     evals = 0
     samples = []
     for sp, ob, (pos, car) in zip(specs, obs, plan):
+        if pos == "all-valid":
+            evals += 1
+            if ob.get("exit") != 0:
+                out.violation("grammatical-config-rejected:" + sp["what"][0], "a configuration whose every name and expression matches the documented grammar is rejected: %s" % ((ob.get("errors") or [])[:3],), common.slim(sp, ob))
+            continue
+        if pos == "call-shape":
+            evals += 1
+            txt, want = car
+            if want is not None and want != (ob.get("exit") == 0):
+                out.violation("call-shape:%s" % txt, "the call %s is %s; a call is a list of 1 to 3 elements (method, arguments, wither flag)" % (txt, "accepted" if ob.get("exit") == 0 else "rejected: %s" % (ob.get("errors") or [])[:2]), common.slim(sp, ob))
+            continue
         if pos == "scalar-values":
             evals += 1
             if ob.get("exit") != 0:
